@@ -142,6 +142,8 @@ func c12Main(specBytes []byte) {
 				x.noread()
 			case "body":
 				x.body()
+			case "stall":
+				x.stalled()
 			}
 			x.res.Ms = time.Since(t0).Milliseconds()
 			Emit(x.res)
@@ -1354,4 +1356,124 @@ func (x *c12Exec) body() {
 		x.b.forget(live.token)
 	}
 	x.probe(label)
+}
+
+// ------------------------------------------------------------ stalled backend
+
+// stalled runs a script against a session whose backend hangs (reads
+// nothing, writes nothing) and is finally dropped:
+//
+//	B   one 12 MiB data message: the writer goroutine parks in its TCP write
+//	sN  N small data calls (10 fill the client queue exactly)
+//	c   close, issued without waiting for the answer (with a full queue it
+//	    legitimately waits for room)
+//	d   one more data call, issued without waiting for the answer
+//	X   the backend drops the TCP connection (reset)
+//
+// Calls issued before X may stay pending until X; every call has to be
+// answered within the bound counted from X (or from its start, if later).
+func (x *c12Exec) stalled() {
+	s, _ := x.open([2]string{"X-Verif-Stall", "1"})
+	if s == nil {
+		x.res.Skipped++
+		return
+	}
+	type pend struct {
+		action, label string
+		p             *shimPending
+	}
+	var pending []pend
+	var dropAt time.Time
+	parked := 0
+	settle := func(pd pend, from time.Time) {
+		bound := c12Bound(pd.action)
+		if c12Missed("no-answer:" + pd.action + "-stalled") {
+			bound = 2 * time.Second
+		}
+		wait := bound - time.Since(from)
+		if wait < 0 {
+			wait = 0
+		}
+		var a shimAnswer
+		select {
+		case a = <-pd.p.done:
+		case <-time.After(wait):
+			a = shimAnswer{Start: pd.p.t0, End: time.Now()}
+		}
+		if !a.Answered && a.Panic == "" {
+			if bound < c12Bound(pd.action) {
+				x.res.Unjudged++
+				return
+			}
+			c12NoteMiss("no-answer:" + pd.action + "-stalled")
+		}
+		x.step(c12Step{Op: pd.action, Target: s.id, Status: a.Status, Ms: a.ms(), Note: pd.label})
+		x.judge(pd.action+"-stalled", pd.label, "", a)
+	}
+	script := strings.Join(x.c.Ops, " ")
+	for i, op := range x.c.Ops {
+		switch {
+		case op == "B":
+			big := strings.Repeat("0123456789abcdef", 12<<16) // 12 MiB: more than socket buffers can take
+			a := x.call("data", fmt.Sprintf("data(session %s, 12 MiB message to a stalled backend)", s.id), "", nil, c12DataBody(s.id, big))
+			x.step(c12Step{Op: op, Target: s.id, Status: a.Status, Ms: a.ms()})
+			if !a.Answered || a.Status != 200 {
+				x.res.Skipped++
+				s.bc.dropNow()
+				return
+			}
+		case strings.HasPrefix(op, "s"):
+			n, _ := strconv.Atoi(op[1:])
+			for j := 0; j < n; j++ {
+				a := x.call("data", fmt.Sprintf("data(session %s, small message %d behind the parked writer)", s.id, j+1), "", nil, c12DataBody(s.id, fmt.Sprintf("queued %d", j)))
+				if !a.Answered || a.Status != 200 {
+					x.step(c12Step{Op: op, Target: s.id, Status: a.Status, Ms: a.ms(), Note: fmt.Sprintf("call %d of %d", j+1, n)})
+					break
+				}
+			}
+			x.step(c12Step{Op: op, Target: s.id, Note: fmt.Sprintf("%d data calls answered 200", n)})
+		case op == "c" || op == "d":
+			action, body := "close", shimIDBody(s.id)
+			if op == "d" {
+				action, body = "data", c12DataBody(s.id, "one too many")
+			}
+			label := fmt.Sprintf("%s(session %s) in script [%s] against a stalled backend", action, s.id, script)
+			pd := pend{action, label, shimStart(x.h, nil, "", shimReq(action, nil, body))}
+			if dropAt.IsZero() {
+				// before the drop the call may have to wait: give it a moment to either finish or park
+				select {
+				case a := <-pd.p.done:
+					pd.p.done <- a
+				case <-time.After(30 * time.Millisecond):
+					parked++
+				}
+				pending = append(pending, pd)
+			} else {
+				settle(pd, pd.p.t0)
+			}
+		case op == "X":
+			s.bc.dropNow()
+			s.bc.waitClosed(5 * time.Second)
+			dropAt = time.Now()
+			for _, pd := range pending {
+				settle(pd, dropAt)
+			}
+			pending = nil
+		}
+		_ = i
+	}
+	if dropAt.IsZero() {
+		s.bc.dropNow()
+		s.bc.waitClosed(5 * time.Second)
+		dropAt = time.Now()
+		for _, pd := range pending {
+			settle(pd, dropAt)
+		}
+	}
+	x.res.Statuses = fmt.Sprintf("parked=%d", parked)
+	x.res.Forced = parked > 0
+	// whatever state the session is in now, calls naming it are answered
+	x.call("close", fmt.Sprintf("close(session %s, wind-down after the stalled backend dropped)", s.id), "", nil, shimIDBody(s.id))
+	x.b.forget(s.token)
+	x.probe("stalled-backend script " + script)
 }
